@@ -84,6 +84,18 @@ func Load(tier string, whole bool, overlay map[string][]byte) (*World, error) {
 		env = append(env, e)
 	}
 	env = append(env, "GOWORK=off", "GOFLAGS=-mod=mod", "GOPROXY=off", "GOSUMDB=off", "GOTOOLCHAIN=local")
+	if ov := os.Getenv("VERIF_OVERLAY"); ov != "" && overlay == nil {
+		overlay = map[string][]byte{}
+		for _, kv := range strings.Split(ov, ";") {
+			if i := strings.Index(kv, "="); i > 0 {
+				b, err := os.ReadFile(kv[i+1:])
+				if err != nil {
+					return nil, fmt.Errorf("VERIF_OVERLAY: %w", err)
+				}
+				overlay[kv[:i]] = b
+			}
+		}
+	}
 	cfg := &packages.Config{
 		Mode:    mode,
 		Dir:     root + "/server",
